@@ -538,9 +538,15 @@ class CancelScope(BaseCancelScope):
                 if self._pending_uncancellations:
                     assert self._parent_scope is not None
                     assert self._parent_scope._pending_uncancellations is not None
-                    self._parent_scope._pending_uncancellations += (
-                        self._pending_uncancellations
-                    )
+                    # Only hand the count over to a scope hosted by the same task: the
+                    # parent of a task's outermost scope (the scope of its task group)
+                    # belongs to another task, which must not be uncancelled for
+                    # cancellations delivered to this one
+                    if self._parent_scope._host_task is self._host_task:
+                        self._parent_scope._pending_uncancellations += (
+                            self._pending_uncancellations
+                        )
+
                     self._pending_uncancellations = 0
 
                 return False
